@@ -282,3 +282,4 @@ func TestC08_Scripts(t *testing.T) {
 		Assumptions: []string{"announcements per publisher follow chain order (documented caller obligation); arrival timing varies", "while a gate-held sync coexists with goroutines waiting on a library mutex the harness settles heuristically (1 ms of stable activity); only 'nothing bad has happened' is asserted then, every 'has happened' assertion waits for exact quiescence"},
 	}, genCase, runCase(t))
 }
+
